@@ -31,14 +31,31 @@ RULE = ('nodes: 1..12 strictly increasing (uniform / uneven / strongly uneven wi
         'distinct = distinct (op, nodes, data, queries) hashes')
 
 NAN = float('nan')
+NQ = 96   # number of near queries per case (padded with duplicates)
 
 
 def unopt(s):
   return [] if s == '_' else [NAN if t == 'nan' else unfbits(t) for t in s.split(',')]
 
 
+EPS = 2.0 ** -104    # np.spacing(np.finfo(np.float64).eps): the guard of jnp.interp
+SEP_SEEN = [0, 0]    # node sets generated / node sets violating the hypothesis `Sep eps` of the theorems
+
+
+def check_sep(x):
+  SEP_SEEN[0] += 1
+  if len(x) >= 2 and not (np.diff(x) > EPS).all():
+    SEP_SEEN[1] += 1
+
+
 def gen_nodes(rng, n, kind=None):
   """Strictly increasing float64 nodes."""
+  x, kind = _gen_nodes(rng, n, kind)
+  check_sep(x)
+  return x, kind
+
+
+def _gen_nodes(rng, n, kind=None):
   if kind is None:
     kind = str(rng.choice(['uniform', 'uneven', 'strongly-uneven', 'sigma', 'pressure']))
   if n == 1:
@@ -88,7 +105,8 @@ def near_queries(rng, xp, special=()):
     q += [float(v) for v in rng.uniform(lo, hi, 4)]
   q += [lo - 0.3 * span, hi + 0.3 * span, lo - 1e-9 * span, hi + 1e-9 * span,
         lo - 1.7 * span, hi + 2.2 * span]
-  q += [q[int(i)] for i in rng.integers(0, len(q), 3)]
+  # duplicates; the total is fixed so that the jitted functions are compiled once per node count
+  q += [q[int(i)] for i in rng.integers(0, len(q), max(3, NQ - len(q)))]
   q = np.array(q)
   rng.shuffle(q)
   return q
@@ -131,6 +149,7 @@ def run(ctx: common.Ctx):
   jax = common.setup_jax()
   import jax.numpy as jnp
   from dinosaur import vertical_interpolation as vi
+  SEP_SEEN[0] = SEP_SEEN[1] = 0
   from dinosaur import horizontal_interpolation as hi
   from dinosaur import sigma_coordinates as sc
   from dinosaur import spherical_harmonic as sh
@@ -141,6 +160,14 @@ def run(ctx: common.Ctx):
 
   rng = ctx.rng
   lines, checks = [], []   # checks: (op, inp, impl_value, kind)
+  import time
+  timing, t_last = {}, [ctx.t0]
+
+  def tick(name):
+    timing[name] = round(time.time() - t_last[0], 1)
+    t_last[0] = time.time()
+
+  tick('lean build + axiom audit')
 
   def add(line, op, inp, impl, kind='vec'):
     lines.append(line)
@@ -149,16 +176,26 @@ def run(ctx: common.Ctx):
   vdot = jax.vmap(vi._dot_interp, (0, None, None))
   vlin = jax.vmap(vi.linear_interp_with_linear_extrap, (0, None, None))
   A = jnp.asarray
+  # one XLA program per (function, shape): much cheaper than op-by-op dispatch
+  j_dot, j_lin = jax.jit(vdot), jax.jit(vlin)
+  v_int = jax.vmap(vi.interp, (0, None, None))
+  j_safe = jax.jit(vi._linear_interp_with_safe_extrap, static_argnames='n')
+  j_vint = jax.jit(vi.vertical_interpolation)
+  j_ss = {None: jax.jit(lambda a, v: jnp.searchsorted(a, v, side='right')),
+          'compare_all': jax.jit(lambda a, v: jnp.searchsorted(a, v, side='right', method='compare_all'))}
 
   # ------------------------------------------------------------------ correspondence: scalar paths
-  ncases = ctx.n(36, 360)
+  ncases = ctx.n(30, 360)
   forced = [(1, 'uniform'), (2, 'uniform'), (2, 'strongly-uneven'), (3, 'sigma'), (12, 'strongly-uneven'),
             (1, 'pressure'), (12, 'pressure'), (3, 'uniform')]
+  # every distinct node count costs one XLA compilation per routine: the quick tier draws from the corners
+  # {1, 2, 3, 12} plus four seed-dependent counts, the thorough tier from all of 2..12
+  n_pool = list(range(2, 13)) if not ctx.quick else [2, 3, 12] + [int(v) for v in rng.choice(range(4, 12), 4, replace=False)]
   for ci in range(ncases):
     if ci < len(forced):
       n, kind = forced[ci]
     else:
-      n, kind = int(rng.choice([2, 3, 4, 5, 6, 7, 8, 9, 10, 11, 12])), None
+      n, kind = int(rng.choice(n_pool)), None
     xp, kind = gen_nodes(rng, n, kind)
     data_kind = str(rng.choice(['normal', 'affine', 'monotone']))
     if data_kind == 'normal':
@@ -167,7 +204,7 @@ def run(ctx: common.Ctx):
       fp = rng.standard_normal() + rng.standard_normal() * xp / max(1e-300, np.abs(xp).max())
     else:
       fp = np.cumsum(rng.uniform(0.1, 2.0, n))
-    nsafe = int(rng.choice([0, 1, 1, 2, 3]))
+    nsafe = int(rng.choice([0, 1, 1, 2, 3])) if not ctx.quick else [1, 2, 0, 3, 1][(n + ctx.seed) % 5]
     limits = np_pad(xp, nsafe) if n >= 2 else xp
     special = [] if n < 2 else [limits[0], limits[-1]] + list(limits[:nsafe]) + list(limits[len(limits) - nsafe:])
     xs = near_queries(rng, xp, special)
@@ -181,28 +218,40 @@ def run(ctx: common.Ctx):
              sample=dict(nodes=xp.tolist(), values=fp.tolist(), n_queries=len(xs), safe_n=nsafe))
     base = dict(xp=xp.tolist(), fp=fp.tolist())
     with ctx.impl('corr-exception', base, 'implementation raised in the correspondence run'):
-      for q, tag in ((xs, 'near'), (xf, 'far')):
+      qall = np.concatenate([xs, xf])
+      eager = ci % 6 == 0      # op-by-op dispatch as well as the jitted programs
+      ctx.dist['dispatch=' + ('eager' if eager else 'jit')] += 1
+      if eager:
+        r_dot, r_lin = vdot(A(qall), A(xp), A(fp)), vlin(A(qall), A(xp), A(fp))
+        r_safe = vi._linear_interp_with_safe_extrap(A(qall), A(xp), A(fp), n=nsafe)
+        r_vint = vi.vertical_interpolation(A(qall), xp, A(fp))
+        r_ss = {m: jnp.searchsorted(A(xp), A(qall), side='right', **({} if m is None else dict(method=m)))
+                for m in (None, 'compare_all')}
+      else:
+        r_dot, r_lin = j_dot(A(qall), A(xp), A(fp)), j_lin(A(qall), A(xp), A(fp))
+        r_safe = j_safe(A(qall), A(xp), A(fp), n=nsafe)
+        r_vint = j_vint(A(qall), A(xp), A(fp))
+        r_ss = {m: j_ss[m](A(xp), A(qall)) for m in (None, 'compare_all')}
+      r_int = v_int(A(qall), A(xp), A(fp))       # scalar queries under vmap, as the repository calls it
+      res = dict(dot=np.asarray(r_dot), lin=np.asarray(r_lin), safe=np.asarray(r_safe), vint=np.asarray(r_vint),
+                 int=np.asarray(r_int), ss={m: np.asarray(v) for m, v in r_ss.items()})
+      for sl, tag in ((slice(0, len(xs)), 'near'), (slice(len(xs), None), 'far')):
+        q = qall[sl]
         inp = dict(base, x=q.tolist(), queries=tag)
         xs_, xp_, fp_ = fvec(q), fvec(xp), fvec(fp)
         for method in (None, 'compare_all'):
-          kw = {} if method is None else dict(method=method)
           add(f'interp F ssr {xp_} {xs_}', f'jnp.searchsorted[right,{method or "default"}]', inp,
-              [int(v) for v in np.asarray(jnp.searchsorted(A(xp), A(q), side='right', **kw))], 'ivec')
-        add(f'interp F interp {xp_} {fp_} {xs_}', 'interp (jnp.interp path)', inp, np.asarray(vi.interp(A(q), A(xp), A(fp))))
-        add(f'interp F interp {xp_} {fp_} {xs_}', 'vertical_interpolation', inp,
-            np.asarray(vi.vertical_interpolation(A(q), xp, A(fp))))
-        add(f'interp F dot {xp_} {fp_} {xs_}', '_dot_interp', inp, np.asarray(vdot(A(q), A(xp), A(fp))))
-        add(f'interp F linext {xp_} {fp_} {xs_}', 'linear_interp_with_linear_extrap', inp,
-            np.asarray(vlin(A(q), A(xp), A(fp))))
+              [int(v) for v in res['ss'][method][sl]], 'ivec')
+        add(f'interp F interp {xp_} {fp_} {xs_}', 'interp (jnp.interp path)', inp, res['int'][sl])
+        add(f'interp F interp {xp_} {fp_} {xs_}', 'vertical_interpolation', inp, res['vint'][sl])
+        add(f'interp F dot {xp_} {fp_} {xs_}', '_dot_interp', inp, res['dot'][sl])
+        add(f'interp F linext {xp_} {fp_} {xs_}', 'linear_interp_with_linear_extrap', inp, res['lin'][sl])
         add(f'interp F safe {nsafe} {xp_} {fp_} {xs_}', f'_linear_interp_with_safe_extrap[n={nsafe}]', inp,
-            np.asarray(vi._linear_interp_with_safe_extrap(A(q), A(xp), A(fp), n=nsafe)), 'opt')
-      if ci % 6 == 0:
-        # the jitted accelerator path (what `interp` runs on TPU)
-        add(f'interp F dot {fvec(xp)} {fvec(fp)} {fvec(xs)}', '_dot_interp[jit]', dict(base, x=xs.tolist()),
-            np.asarray(jax.jit(vdot)(A(xs), A(xp), A(fp))))
+            res['safe'][sl], 'opt')
 
+  tick('corr scalar paths')
   # ------------------------------------------------------------------ correspondence: batched wrapper
-  nb = ctx.n(10, 100)
+  nb = ctx.n(10, 50)
   fns = [('interp', vi.interp, lambda xp_, fp_, xs_: f'interp F interp {xp_} {fp_} {xs_}', 'vec'),
          ('_dot_interp', vi._dot_interp, lambda xp_, fp_, xs_: f'interp F dot {xp_} {fp_} {xs_}', 'vec'),
          ('linear_extrap', vi.linear_interp_with_linear_extrap,
@@ -234,14 +283,16 @@ def run(ctx: common.Ctx):
         add(mk(fvec(xp), fvec(fcol), fvec(xcol)), f'vectorize_vertical_interpolation[{name}]',
             dict(inp0, column=list(idx), x=xcol.tolist(), fp=fcol.tolist()), ocol, okind)
 
+  tick('corr batched')
   # ------------------------------------------------------------------ correspondence: coordinates
-  nc = ctx.n(8, 80)
+  nc = ctx.n(6, 36)
   interp_fns = {'safe': None, 'const': vi.vectorize_vertical_interpolation(vi.interp),
                 'linear': vi.vectorize_vertical_interpolation(vi.linear_interp_with_linear_extrap)}
   for ki in range(nc):
     ns = int(rng.choice([2, 3, 5, 8, 12]))
     b, bkind = dinoutil.random_boundaries(rng, ns)
     sigma = sc.SigmaCoordinates(b)
+    check_sep(sigma.centers)
     npc = int(rng.choice([2, 3, 6, 12]))
     pcent, _ = gen_nodes(rng, npc, 'pressure')
     pcoords = vi.PressureCoordinates(pcent)
@@ -283,6 +334,8 @@ def run(ctx: common.Ctx):
       hyb = vi.HybridCoordinates(a_boundaries=ab, b_boundaries=bb)
       fh = rng.standard_normal((nh, X, Y))
       sph = rng.uniform(950.0, 1050.0, (1, X, Y))
+      for v in sph.ravel():
+        check_sep(hyb.get_sigma_centers(v))
       if not all((np.diff(hyb.get_sigma_centers(v)) > 0).all() for v in sph.ravel()):
         ctx.dist['hybrid:source-not-increasing-skipped'] += 1
         continue
@@ -307,8 +360,9 @@ def run(ctx: common.Ctx):
           add(f'interp F psurf {fvec(pcent)} {fvec(gcol)} {fbits(oc[0])} {fbits(grav)}', 'get_surface_pressure',
               dict(levels=pcent.tolist(), geopotential=gcol.tolist(), orography=float(oc[0]), g=grav), ocol, 'scalar')
 
+  tick('corr coordinates')
   # semi-Lagrangian vertical interpolation (constant extrapolation), 1-D and 3-D coordinates
-  for si in range(ctx.n(4, 40)):
+  for si in range(ctx.n(4, 24)):
     n = int(rng.choice([1, 2, 3, 6]))
     xp, _ = gen_nodes(rng, n, 'sigma' if n > 1 else 'uniform')
     X, Y = 2, int(rng.choice([1, 3]))
@@ -322,7 +376,16 @@ def run(ctx: common.Ctx):
                                                    dinoutil.columns(out, 0)):
         add(f'interp F interp {fvec(xp)} {fvec(fcol)} {fvec(xcol)}', 'primitive_equations._vertical_interp',
             dict(xp=xp.tolist(), fp=fcol.tolist(), x=xcol.tolist()), ocol)
+      # as the semi-Lagrangian step calls it: 1-D targets, 3-D (per column, still increasing) source nodes
+      src = np.sort(tgt, axis=0)
+      if n == 1 or (np.diff(src, axis=0) > 0).all():
+        out = np.asarray(pe._vertical_interp(A(xp), A(src), A(fp)))
+        for (idx, scol), (_, fcol), (_, ocol) in zip(dinoutil.columns(src, 0), dinoutil.columns(fp, 0),
+                                                     dinoutil.columns(out, 0)):
+          add(f'interp F interp {fvec(scol)} {fvec(fcol)} {fvec(xp)}', 'primitive_equations._vertical_interp[3-D nodes]',
+              dict(xp=scol.tolist(), fp=fcol.tolist(), x=xp.tolist()), ocol)
 
+  tick('corr semi-lagrangian')
   # ------------------------------------------------------------------ correspondence: horizontal
   grid_table = [(8, 4, 'gauss', 0.0), (6, 5, 'equiangular', 0.1), (4, 2, 'gauss', 0.0), (12, 6, 'gauss', 0.3),
                 (5, 3, 'equiangular', 0.0), (10, 7, 'equiangular_with_poles', 0.05), (16, 8, 'gauss', 0.0)]
@@ -330,7 +393,7 @@ def run(ctx: common.Ctx):
   def mkgrid(t):
     return sh.Grid(longitude_nodes=t[0], latitude_nodes=t[1], latitude_spacing=t[2], longitude_offset=t[3])
 
-  nh_cases = ctx.n(6, 40)
+  nh_cases = ctx.n(6, 24)
   for hi_ in range(nh_cases):
     ts = grid_table[int(rng.integers(0, len(grid_table)))] if hi_ >= 2 else grid_table[hi_]
     tt = grid_table[int(rng.integers(0, len(grid_table)))] if hi_ >= 2 else grid_table[1 - hi_]
@@ -363,6 +426,7 @@ def run(ctx: common.Ctx):
       add(f'interp F take {fvec(field.ravel())} {",".join(str(i) for i in idx)}', 'NearestRegridder.__call__',
           dict(inp0, field=field.tolist()), on.ravel())
 
+  tick('corr horizontal')
   # ------------------------------------------------------------------ validation / malformed stream
   def err_kind(f):
     try:
@@ -419,6 +483,7 @@ def run(ctx: common.Ctx):
     ctx.expect(acc == bool((np.diff(c) > 0).all()), 'validation',
                f'PressureCoordinates accepted={acc} for {c.tolist()}', dict(centers=c.tolist()))
 
+  tick('validation stream')
   # ------------------------------------------------------------------ run the model, compare
   outs = ctx.model(lines)
   for (op, inp, impl, kind), o in zip(checks, outs):
@@ -449,13 +514,14 @@ def run(ctx: common.Ctx):
     else:
       ctx.corr_float(op, inp, np.asarray(impl, dtype=float), np.asarray(unopt(o)))
 
+  tick('model run + compare')
   # ------------------------------------------------------------------ probes on the real code
-  nprobe = ctx.n(24, 240)
+  nprobe = ctx.n(20, 240)
   for pi in range(nprobe):
-    n = [2, 2, 3, 12][pi] if pi < 4 else int(rng.choice([2, 3, 4, 5, 6, 8, 10, 12]))
+    n = [2, 2, 3, 12][pi] if pi < 4 else int(rng.choice(n_pool))
     xp, kind = gen_nodes(rng, n)
     fp = rng.standard_normal(n) * float(rng.choice([1.0, 50.0]))
-    nsafe = int(rng.choice([1, 1, 2, 3]))
+    nsafe = int(rng.choice([1, 1, 2, 3])) if not ctx.quick else [1, 2, 3, 3, 1][(n + ctx.seed) % 5]
     pad = np_pad(xp, nsafe)
     xs = near_queries(rng, xp, [pad[0], pad[-1]])
     inp = dict(xp=xp.tolist(), fp=fp.tolist(), x=xs.tolist(), n=nsafe)
@@ -464,16 +530,15 @@ def run(ctx: common.Ctx):
     span = xp[-1] - xp[0]
     dmin = np.diff(xp).min()
     with ctx.impl('probe-exception', inp):
-      yi = np.asarray(vi.interp(A(xs), A(xp), A(fp)))
-      yd = np.asarray(vdot(A(xs), A(xp), A(fp)))
-      yl = np.asarray(vlin(A(xs), A(xp), A(fp)))
-      ys = np.asarray(vi._linear_interp_with_safe_extrap(A(xs), A(xp), A(fp), n=nsafe))
+      xq = np.concatenate([xp, xs])          # the nodes first, then the adversarial queries
+      yi, yd, yl, ys = (np.asarray(v) for v in (
+          vi.interp(A(xq), A(xp), A(fp)), j_dot(A(xq), A(xp), A(fp)), j_lin(A(xq), A(xp), A(fp)),
+          j_safe(A(xq), A(xp), A(fp), n=nsafe)))
       # (1) node values at nodes, all four routines
-      for name, fn in (('interp', lambda q: vi.interp(A(q), A(xp), A(fp))), ('dot', lambda q: vdot(A(q), A(xp), A(fp))),
-                       ('linext', lambda q: vlin(A(q), A(xp), A(fp))),
-                       ('safe', lambda q: vi._linear_interp_with_safe_extrap(A(q), A(xp), A(fp), n=nsafe))):
-        ctx.expect(np.abs(np.asarray(fn(xp)) - fp).max() <= 1e-12 * fscale, 'node-values',
+      for name, y in (('interp', yi), ('dot', yd), ('linext', yl), ('safe', ys)):
+        ctx.expect(bool(np.abs(y[:n] - fp).max() <= 1e-12 * fscale), 'node-values',
                    f'{name} does not return the node values at the nodes', inp)
+      yi, yd, yl, ys = yi[n:], yd[n:], yl[n:], ys[n:]
       # (2) reference piecewise-linear interpolant (independent oracle: numpy)
       ref = np.interp(xs, xp, fp)
       ctx.expect(np.abs(yi - ref).max() <= 1e-11 * fscale, 'reference-interpolant',
@@ -507,15 +572,15 @@ def run(ctx: common.Ctx):
       # (7) exact on affine data
       a0, s0 = float(rng.standard_normal()), float(rng.standard_normal()) / max(abs(xp[0]), abs(xp[-1]), span)
       fa = a0 + s0 * xp
-      xall = np.concatenate([xs, far_queries(xp)[2:]])
+      xall = np.concatenate([xs, far_queries(xp)[2:], xp[:n - 2]])   # same length as xq: programs are reused
       ascale = abs(a0) + abs(s0) * (np.abs(xall) + max(abs(xp[0]), abs(xp[-1])))
       dist = np.maximum(0.0, np.maximum(xp[0] - xall, xall - xp[-1]))
       atol = 1e-12 * ascale * (1 + dist / dmin) * (1 + span / dmin * 1e-2) + 1e-13
       ins = (xall >= xp[0]) & (xall <= xp[-1])
       ya = np.asarray(vi.interp(A(xall), A(xp), A(fa)))
-      yda = np.asarray(vdot(A(xall), A(xp), A(fa)))
-      yla = np.asarray(vlin(A(xall), A(xp), A(fa)))
-      ysa = np.asarray(vi._linear_interp_with_safe_extrap(A(xall), A(xp), A(fa), n=nsafe))
+      yda = np.asarray(j_dot(A(xall), A(xp), A(fa)))
+      yla = np.asarray(j_lin(A(xall), A(xp), A(fa)))
+      ysa = np.asarray(j_safe(A(xall), A(xp), A(fa), n=nsafe))
       exact = a0 + s0 * xall
       ainp = dict(xp=xp.tolist(), a=a0, s=s0, x=xall.tolist())
       ctx.expect(bool((np.abs(ya - exact) <= atol)[ins].all()) and bool((np.abs(yda - exact) <= atol)[ins].all()),
@@ -528,6 +593,7 @@ def run(ctx: common.Ctx):
                  'affine-safe-extrap', 'safe extrapolation not exact within / not NaN beyond n cells on affine data',
                  dict(ainp, n=nsafe, out=ysa.tolist()))
 
+  tick('probes interpolation')
   # one-node corner: the two code paths of `interp` disagree at the node (model theorem
   # dotInterp_one_node_ne_interp); reported as a finding only when it is listed, otherwise noted.
   with ctx.impl('probe-exception', dict(case='one-node')):
@@ -541,6 +607,13 @@ def run(ctx: common.Ctx):
         ctx.fail('dot-interp-one-node', msg, dict(x=2.0, xp=[2.0], fp=[7.0]))
       else:
         ctx.notes.append('finding (not counted as violation): ' + msg)
+    try:
+      arr = 'returns shape ' + str(np.shape(vi._dot_interp(A([0.5, 1.5, 2.5, 0.1, 0.2]), A([0.0, 1.0, 3.0]), A([1.0, 2.0, 4.0]))))
+    except Exception as e:  # pylint: disable=broad-except
+      arr = 'raises ' + type(e).__name__
+    ctx.notes.append('domain statement: the _dot_interp (accelerator) path takes scalar queries only (as used under vmap '
+                     'in the repository); with an array of 5 queries on 3 nodes it ' + arr + ', while the jnp.interp path '
+                     'and the docstring of vertical_interpolation() accept arrays')
     # the guard of jnp.interp: nodes closer than 2^-104 (outside the theorems' domain `Sep eps`)
     g_i = float(vi.interp(2.0 ** -106, A([0.0, 2.0 ** -105, 1.0]), A([0.0, 1.0, 2.0])))
     g_d = float(vi._dot_interp(2.0 ** -106, A([0.0, 2.0 ** -105, 1.0]), A([0.0, 1.0, 2.0])))
@@ -551,7 +624,7 @@ def run(ctx: common.Ctx):
                dict(x=2.0 ** -106, xp=[0.0, 2.0 ** -105, 1.0], fp=[0.0, 1.0, 2.0], interp=g_i, dot=g_d))
 
   # round trips and coordinates on the real functions
-  nrt = ctx.n(8, 80)
+  nrt = ctx.n(6, 36)
   for ri in range(nrt):
     ns = int(rng.choice([2, 3, 5, 8, 12]))
     b, _ = dinoutil.random_boundaries(rng, ns)
@@ -606,6 +679,7 @@ def run(ctx: common.Ctx):
                  'relative height interpolated at the returned surface pressure is not zero',
                  dict(levels=levels.tolist(), geopotential=geo.tolist(), orography=oro.tolist(), ps=ps.tolist()))
 
+  tick('probes round trips')
   # horizontal regridders: constants, identity on equal grids
   for hi_ in range(ctx.n(5, 14)):
     ts = grid_table[hi_ % len(grid_table)]
@@ -630,6 +704,12 @@ def run(ctx: common.Ctx):
         ctx.expect(same == list(range(len(same))), 'nearest-self',
                    'nearest neighbour of a node of the same grid is not itself', inp)
 
+  tick('probes horizontal')
+  ctx.notes.append('section wall times (s): ' + repr(timing))
+  ctx.obligation('hypothesis Sep eps (node spacing > 2^-104) holds for every generated admissible node set',
+                 'hypothesis', SEP_SEEN[1] == 0 and bool(np.spacing(np.finfo(np.float64).eps) == EPS),
+                 f'{SEP_SEEN[0]} node sets (sigma centres, pressure levels, hybrid centres, synthetic), '
+                 f'{SEP_SEEN[1]} violations')
   if not ctx.quick:
     ctx.leanchecker(['DinoProofs.Properties.C17'])
   return ctx.finish(RULE, 'theorems are about the Lean model Dino.Interp over an ordered field; NaN is modelled as '
